@@ -267,6 +267,7 @@ func init() {
 				op := vpS(c.In, "op")
 				stride := vpI(c.In, "stride")
 				instances, accepted, diff := 0, 0, 0
+				adopted := 0
 				var example string
 				pairOp = op == "splice_fields" || op == "parts_recombine"
 				try := func(hdr string) {
@@ -624,6 +625,18 @@ func init() {
 						if _, _, err := w.saveVia(j, victim); err != nil {
 							continue
 						}
+						if w.mr != nil {
+							// the new session must not live under the key (nor be sealed with the secret) the planted cookie named
+							if w.mr.Exists(id) {
+								adopted++
+								w.mr.Del(id)
+							} else if ck := j.get(name0); ck != nil {
+								if raw, err := base64.URLEncoding.DecodeString(strings.SplitN(ck.Value, "|", 2)[0]); err == nil &&
+									strings.Contains(string(raw), base64.RawURLEncoding.EncodeToString(tsec)) {
+									adopted++
+								}
+							}
+						}
 						try(name0 + "=" + pv)
 						// (control) what the save handed out must load: otherwise this instance tested nothing
 						if got, err := w.proxy.sessionStore.Load(w.storeReq(j)); err != nil || !vpSessionsEqual(got, victim) {
@@ -651,7 +664,7 @@ func init() {
 					env.emit(vpOut{ID: c.ID, Err: "operator " + op + " has no instance for " + cred})
 					continue
 				}
-				obs := map[string]interface{}{"instances": instances, "accepted": accepted, "acceptedDifferent": diff, "leak": leak, "panic": panics > 0}
+				obs := map[string]interface{}{"instances": instances, "accepted": accepted, "acceptedDifferent": diff, "leak": leak, "panic": panics > 0, "adopted": adopted}
 				env.emit(vpOut{ID: c.ID, Obs: obs, Conc: map[string]interface{}{"example_accepted_different": example, "cookies": len(A.cookies)}})
 			}
 		})
